@@ -3,7 +3,7 @@ use crate::{
         fragment_buffer::{FragmentSpan, FragmentTree},
         Fragment, StringBuffer,
     },
-    fragment::CellText,
+    fragment::{escape_html_text, CellText},
     util::parser,
     Merge, Settings,
 };
@@ -365,6 +365,10 @@ impl CellBuffer {
         // Combine the css, so as not to have a <!-- separator --> comment which
         // was intended only for text node added after a previous text node.
         let css = [element_styles, legend_css].join("\n");
+        // the css is character data of the style element and needs to be escaped the same way
+        // as the content of the text elements, since it contains strings supplied by the user
+        #[cfg(not(feature = "with-dom"))]
+        let css = escape_html_text(&css);
         html::tags::style([], [text(css)])
     }
 
